@@ -121,7 +121,7 @@ type noEnumValues struct {
 }
 
 func (noEnumValues) ByNumber(protoreflect.EnumNumber) protoreflect.EnumValueDescriptor { return nil }
-func (noEnumValues) ByName(protoreflect.Name) protoreflect.EnumValueDescriptor       { return nil }
+func (noEnumValues) ByName(protoreflect.Name) protoreflect.EnumValueDescriptor         { return nil }
 
 // unmarshalView renders what tag.Unmarshal produced in the format of the model's `tagu` answer.
 // The default is checked against defval.Unmarshal of the text the model says was handed over.
